@@ -119,13 +119,13 @@ def reduce_(ex, op, a, axis=None):
     else:
         rkind = kind
     nc = conc(n)
-    if isinstance(nc, int) and nc <= MAX_EXPAND:
+    if isinstance(nc, int) and nc <= (512 if op in ('sum', 'mean', 'argmax', 'argmin') else MAX_EXPAND):
         if nc == 0:
             if op in ('sum', 'any', 'all'):
                 zero = {'sum': 0, 'any': False, 'all': True}[op]
                 return zero if not oshape else Arr(oshape, lambda idx: zero, rkind)
             raise SymRaise('ValueError', 'zero-size array to reduction operation')
-        if nc <= MAX_EXPAND and ex.foralls:
+        if nc <= MAX_EXPAND and ex.foralls and op in ('any', 'all'):
             for j in range(nc):
                 ex.add_index_term(z3.IntVal(j))
 
